@@ -43,7 +43,7 @@ EXPLANATION = (
 
 
 C17_DOCS = [
-    '#import "a.typ": c, B, b, a, A, C\n', '#import "a.typ": x.b, x.B, X.b, a as Q, A as q, b, B, d, D, e, E, f, F\n',
+    '#import "m.typ": aasb, a as b, x.y as z, x.yasz\n', '#import "a.typ": c, B, b, a, A, C\n', '#import "a.typ": x.b, x.B, X.b, a as Q, A as q, b, B, d, D, e, E, f, F\n',
     '#import "a.typ": c, b, a\n', '#import "a.typ": b as x, a as y, c\n', '#import "a.typ": (d, c,\n b, a)\n', '#import "a.typ": a, a\n',
     '#table(columns: 2, [a], [b], [c], [d])\n', '#table(columns: (1fr, 2fr), [a], [b],\n [c], [d])\n', '#grid(columns: 3, [a], [b], [c])\n',
     '// @typstyle off\n#f( 1 ,2 )\n\n#f( 1 ,2 )\n', '#f(a,\n b)\n', '#f(a, b)\n', '#f(a, g(b,\n c))\n', '#{\n  let a = f(1,\n 2)\n  a.b.c(d).e\n}\n',
@@ -130,7 +130,7 @@ def schedule_differential(S, src, width=80, tab=2, reorder=0, api='c'):
     return None
 
 
-NATIVE_CORPUS = ['#import "a.typ": c, B, b, a, A, C\n', '#f(a, b)\n', '#import "a.typ": c, b, a\n', '// @typstyle off\n#f( 1 ,2 )\n\n#f( 1 ,2 )\n', '#table(columns: 2, [a], [b], [c], [d])\n',
+NATIVE_CORPUS = ['#import "a.typ": c, B, b, a, A, C\n', '#import "m.typ": aasb, a as b, x.y as z, x.yasz\n', '#f(a, b)\n', '#import "a.typ": c, b, a\n', '// @typstyle off\n#f( 1 ,2 )\n\n#f( 1 ,2 )\n', '#table(columns: 2, [a], [b], [c], [d])\n',
                  '#{\n  let a = f(1, 2)\n  a.b.c(d).e\n}\n', '$ f(a, b; c, d) $\n', '= H\n- a\n  + b\n']
 
 
